@@ -394,6 +394,11 @@ def run(ctx):
             if kind == "sy":
                 ctx.violation("the call/ret log of the real run is not accepted by the Sync trace-acceptance model: " + v[:500],
                               case, key=classify(prog, runs, v))
+            elif classify(prog, runs, v):
+                # the run re-locked a mutex it owned and went on: the reference LTS refuses that very step (the proved
+                # counterexample of Props.lean) even when the final state happens to be reachable — same finding
+                ctx.violation("the history of the real run is refused by the reference LTS at the re-lock of an owned "
+                              "mutex: " + v[:300], case, key=classify(prog, runs, v))
             else:
                 ctx.broken.append({"kind": "one-simcall-machine-disagrees", "prog": prog, "verdict": v[:800]})
         else:
